@@ -49,8 +49,9 @@ def oneshot(total):
     return _oneshot_cache[total]
 
 
-def run_history(writes, fin, log=None, probes=None):
-    """executes one history; returns (image, total bytes, error)"""
+def run_history(writes, fin, log=None, probes=None, as_type="bytes"):
+    """executes one history; returns (image, total bytes, error).  as_type: the bytes-like type handed to
+    write() - bytes, bytearray or memoryview (the file API accepts any of them)"""
     m = sut.load()
     f = SimFile(log=log, name="disk")
     b = m["mciipm"].Block1014(f)
@@ -70,7 +71,12 @@ def run_history(writes, fin, log=None, probes=None):
                     probes["probe:write_spans_3plus_blocks"] += 1
             if log is not None:
                 log.emit("blocker", "write", n)
-            b.write(posbytes(pos, n))
+            data = posbytes(pos, n)
+            if as_type == "bytearray":
+                data = bytearray(data)
+            elif as_type == "memoryview":
+                data = memoryview(data)
+            b.write(data)
             pos += n
         if probes is not None and pos > 0 and pos % 1012 == 0:
             probes["probe:trailer_pending_at_finalise"] += 1
@@ -116,8 +122,8 @@ def judge_image(image, total, err, fin, f=None):
     return fails
 
 
-def judge_history(writes, fin, log=None, probes=None):
-    image, total, err, f = run_history(writes, fin, log, probes)
+def judge_history(writes, fin, log=None, probes=None, as_type="bytes"):
+    image, total, err, f = run_history(writes, fin, log, probes, as_type)
     return judge_image(image, total, err, fin, f), image, f
 
 
@@ -170,8 +176,20 @@ def plan(tier, seed, wave):
 
 def gen_seeded(seed_i):
     st = Streams(seed_i)
-    return {"kind": "blocker_history", "writes": workload.gen_write_lens(st["workload"]),
-            "finalise": st["knobs"].choice(FINS)}
+    kn = st["knobs"]
+    scn = {"kind": "blocker_history", "writes": workload.gen_write_lens(st["workload"]),
+           "finalise": kn.choice(FINS)}
+    r = kn.random()
+    if r < 0.10:
+        scn["as_type"] = kn.choice(["bytearray", "memoryview"])
+    elif r < 0.13:
+        # very many small writes (call-count dependent behaviour)
+        wl = st["workload"]
+        scn["writes"] = [wl.choice([1, 1, 2, 3, 4, 7]) for _ in range(wl.randint(1000, 4000))]
+    elif r < 0.16:
+        wl = st["workload"]
+        scn["writes"] = [wl.randint(0, 600)] + [wl.choice([65535, 65536, 65537, 131072, 1012 * 64, 1012 * 65, 1014 * 64, 70000])] + [wl.randint(0, 1100)]
+    return scn
 
 
 def _nontrivial(writes):
@@ -233,7 +251,13 @@ def run_task(task):
         for i in range(task["start"], task["start"] + task["n"]):
             scn = gen_seeded(sub_seed(task["seed"], ID, i))
             log = EventLog() if i < 16 else None
-            fails, image, f = judge_history(scn["writes"], scn["finalise"], log=log, probes=c)
+            fails, image, f = judge_history(scn["writes"], scn["finalise"], log=log, probes=c, as_type=scn.get("as_type", "bytes"))
+            if scn.get("as_type"):
+                c["knob:write_argument=" + scn["as_type"]] += 1
+            if len(scn["writes"]) >= 1000:
+                c["probe:history_of_1000_or_more_writes"] += 1
+            if max(scn["writes"]) >= 65535:
+                c["probe:single_write_of_64KiB_or_more"] += 1
             part["evals"] += 1
             part["runs"] += 1
             part["events"] += f.n_ops
@@ -256,20 +280,22 @@ def digest_slice(seed):
     for i in range(16):
         scn = gen_seeded(sub_seed(seed, ID, i))
         log = EventLog()
-        fails, image, f = judge_history(scn["writes"], scn["finalise"], log=log)
+        fails, image, f = judge_history(scn["writes"], scn["finalise"], log=log, as_type=scn.get("as_type", "bytes"))
         h.update((canon(scn) + log.digest() + hashlib.sha1(image).hexdigest() + str(len(fails))).encode())
     return h.hexdigest()[:16]
 
 
 def judge_scenario(scn):
-    return judge_history(scn["writes"], scn["finalise"])[0]
+    return judge_history(scn["writes"], scn["finalise"], as_type=scn.get("as_type", "bytes"))[0]
 
 
 def minimise(scn, oracle):
     dl = shrink.Deadline(60)
 
+    at = scn.get("as_type", "bytes")
+
     def ok(writes, fin=None):
-        fl = judge_history(writes, fin or scn["finalise"])[0]
+        fl = judge_history(writes, fin or scn["finalise"], as_type=at)[0]
         return any(x["oracle"] == oracle for x in fl)
 
     writes = shrink.ddmin(scn["writes"], ok, dl)
@@ -282,7 +308,12 @@ def minimise(scn, oracle):
     fin = scn["finalise"]
     if fin != "finalise" and ok(writes, "finalise"):
         fin = "finalise"
-    return {"kind": "blocker_history", "writes": writes, "finalise": fin}
+    out = {"kind": "blocker_history", "writes": writes, "finalise": fin}
+    if at != "bytes":
+        if any(x["oracle"] == oracle for x in judge_history(writes, fin)[0]):
+            return out
+        out["as_type"] = at
+    return out
 
 
 def finalize(total, tier):
